@@ -477,6 +477,20 @@ def run(ctx):
                 run_history(ctx, cls, flavour, base_seed, ops)
                 if modelled(cls, ops):
                     model_history(ctx, base_seed, flavour, ops, cls)
+            if cls in ("ConvexPolyhedron", "Polyhedron") and flavour == "generic":
+                # the handedness of the eigh result depends on the shape: more base shapes for diagonalize_inertia
+                # (alone, after another diagonalize, and followed by a size setter and to_hoomd)
+                for _ in range(int((8 if quick else 40) * ctx.widen)):
+                    bs = int(rng.integers(1 << 30))
+                    for ops in ([["call", "diagonalize_inertia", None]],
+                                [["call", "diagonalize_inertia", None], ["setfac", "volume", 1.7],
+                                 ["call", "to_hoomd", None], ["call", "diagonalize_inertia", None]]):
+                        case = {"cls": cls, "flavour": flavour, "base_seed": bs, "ops": ops}
+                        ctx.case(case)
+                        ctx.count("cls:" + cls)
+                        ctx.count("extra-diagonalize")
+                        run_history(ctx, cls, flavour, bs, ops)
+                        model_history(ctx, bs, flavour, ops, cls)
             if cls.startswith("ConvexSphero"):
                 # the rounding-radius guard (negative / nan refused, zero accepted) and a rescale after it
                 for extra in ([["setabs", "radius", -1.0]], [["setabs", "radius", float("nan")]],
